@@ -77,6 +77,13 @@ def disconnectR (env : Env) (dstate : Nat) (logout : Option String) : R Unit := 
     R.hook .onDisconnect .onDisconnect
   else pure ()
 
+/-- `except Exception: y; raise` – the handler of a `try` whose exception is re-raised after `y`.  The ghost
+mark is bookkeeping only (see `Ghost.waive`). -/
+def rethrowAfter {α : Type} (y : R Unit) (ex : Exc) : R α := do
+  if ex == .duplicateSeqNo || ex == .attribute then R.ghost .waive else pure ()
+  y
+  R.throw ex
+
 /-- `_process_logon` -/
 def processLogonR (env : Env) (m : Msg) : R Unit := do
   R.assert (m.mtype == mLogon)
@@ -94,7 +101,9 @@ def processLogonR (env : Env) (m : Msg) : R Unit := do
         if n ≥ c.sess.nextIn then do
           let e ← R.liftE (m.get tEncryptMethod)
           let h ← R.liftE (m.get tHeartBtInt)
-          sendMsgR env (Msg.mk' mLogon [(tEncryptMethod, e), (tHeartBtInt, h)])
+          -- fix a9dbd9f: a reply that cannot be sent drops the connection, then the error goes on
+          R.tryCatch (sendMsgR env (Msg.mk' mLogon [(tEncryptMethod, e), (tHeartBtInt, h)]))
+            (rethrowAfter (disconnectR env st_DISCONNECTED_BROKEN_CONN none))
         else pure ()
         pure false
     else pure false
